@@ -123,9 +123,20 @@ def gen_cases(ctx):
                 retry_case(mode, n, neg, True, calls, gen="negative-retry")
                 retry_case(mode, n, neg, False, [call("EEO"), call("PO", idem=True), call("EEEEEEEEEEEEP", idem=True)],
                            gen="negative-retry")
-    # no URL at all: failover's OnFailure indexes urls[0]
-    for mode in MODES:
-        retry_case(mode, 0, 2, True, [call("O"), call("EO"), call("PO"), call("O")], gen="no-url")
+    # degenerate sizes for every strategy: no URL at all (failover's OnFailure indexes urls[0])
+    # and exactly one URL, retry 0 and small budgets, every outcome incl. panic, plugin
+    # default and per-call overrides
+    for mode in MODES + ("default",):
+        for n in (0, 1):
+            for retry in ((10,) if mode == "default" else (0, 1, 2, -1)):
+                for idem in ((False,) if mode == "default" else (False, True)):
+                    calls = [call(s) for s in ("O", "E", "P", "EO", "PO", "EE", "PP", "EP", "PE", "")]
+                    calls += [call(s, idem=True, retry=0) for s in ("O", "E", "P")]
+                    calls += [call(s, idem=True, retry=1) for s in ("EO", "PO", "PP", "EE")]
+                    calls += [call(s, idem=False) for s in ("E", "P", "O")]
+                    retry_case(mode, n, retry, idem, calls, gen="degenerate")
+                    for s1 in ("O", "E", "P", "PO", "EP"):
+                        retry_case(mode, n, retry, idem, [call(s1)], gen="degenerate")
     # C. sequences of calls sharing one plugin: all triples over a small script alphabet
     alpha = ["O", "EO", "PO", "EEO", "EPE", "EEEO", "PEPE"]
     for n in range(1, 5):
@@ -544,6 +555,21 @@ def run(ctx):
         ctx.report("harness-crash", "harness process died (rc=%d) while running %s: %s" % (rc, first, err[-400:]),
                    {"case": first, "stderr": err[-2000:], "failing_input": True})
         cases = [c for c in cases if c["id"] in done]
+    # a case whose completion order could not be forced in time is run once more; if that
+    # persists it is not luck: say so instead of skipping it silently
+    again = [c for c in cases if byid[c["id"]].get("inconclusive")]
+    if again:
+        rc2, obs2, err2 = hv.run_harness("c16", again[:20], timeout=300)
+        for o in obs2:
+            if not o.get("inconclusive"):
+                byid[o["id"]] = o
+        still = [c for c in again[:20] if byid[c["id"]].get("inconclusive")]
+        if still:
+            ctx.report("fan-out-order-cannot-be-forced",
+                       "the scripted completion order could not be forced twice in a row (a goroutine the plugin should have "
+                       "started never finished): %s" % json.dumps({k: v for k, v in still[0].items() if k != "gen"}),
+                       {"case": {k: v for k, v in still[0].items() if k != "gen"}, "observation": byid[still[0]["id"]],
+                        "failing_input": False, "persistently_inconclusive": len(still)})
     model = hv.run_model("c16", [model_line(c) for c in cases])
     inconclusive = 0
     disagreements = []
